@@ -1,4 +1,5 @@
 from typing import Any
+from copy import deepcopy
 from synapgrad.tensor import Tensor
 from synapgrad import cpu_ops
 from synapgrad.device import Device
@@ -348,6 +349,8 @@ def slice(x:Tensor, s:slice):
     """
     if not isinstance(x, Tensor):
         raise TypeError(f"Expected x to be a Tensor but got {type(x)}")
+    
+    s = deepcopy(s) # backward scatters to the positions read here, whatever the caller does to an index list / array afterwards
     
     if x.device == Device.CPU:
         out_data = cpu_ops.slice_forward(x.data, s)
